@@ -131,6 +131,9 @@ func keyOf(s string) Key {
 	if i, err := strconv.Atoi(s); err == nil && strconv.Itoa(i) == s {
 		return Key{S: s, I: i, Num: true}
 	}
+	if s == "$nil" {
+		return nilKey
+	}
 	if r, ok := keyRank[s]; ok {
 		return Key{S: s, I: r}
 	}
@@ -147,6 +150,9 @@ func rank(k Key) int {
 // tkey is a typed-integer map key, written `(num n)` in the program.  It is a key of maps only (exact
 // integers hash to themselves: 17 of them force an array node at the root of the hash trie); as a
 // map key it is distinct from the text "n", so it gets its own place in the canonical order.
+// nilKey is the map key $nil (stored by the real maps outside the hash trie).
+var nilKey = Key{S: "$nil", I: 3000}
+
 func tkey(n int) Key { return Key{S: fmt.Sprintf("(num %d)", n), I: 2000 + n} }
 
 func project(v any) Val {
@@ -183,6 +189,8 @@ func projectD(v any, depth int, budget *int) Val {
 				ps = append(ps, kv{keyOf(k), projectD(val, depth+1, budget)})
 			case int:
 				ps = append(ps, kv{tkey(k), projectD(val, depth+1, budget)})
+			case nil:
+				ps = append(ps, kv{nilKey, projectD(val, depth+1, budget)})
 			default:
 				return Val{T: "other:mapkey", E: []Val{}, Ks: []Key{}}
 			}
@@ -436,7 +444,7 @@ func litSafe(v Val) string {
 
 // ---- V: random histories on the real evaluator
 
-var mapKeys = []string{"k", "m", "n", "0", "1", "2"}
+var mapKeys = []string{"k", "m", "n", "0", "1", "2", "$nil"}
 
 func randVal(r *rand.Rand, depth int) Val {
 	if depth == 0 || r.Intn(4) == 0 {
@@ -487,7 +495,7 @@ func randPath(r *rand.Rand, v Val, maxLen int, validOnly bool) []Key {
 		case validOnly:
 			return p
 		default:
-			alts := []string{"k", "n", "0", strconv.Itoa(len(cur.E)), strconv.Itoa(-len(cur.E) - 1), "2"}
+			alts := []string{"k", "n", "0", strconv.Itoa(len(cur.E)), strconv.Itoa(-len(cur.E) - 1), "2", "$nil"}
 			k = keyOf(alts[r.Intn(len(alts))])
 			cur = errVal
 		}
@@ -594,13 +602,20 @@ func growOps(r *rand.Rand, run *runner, where []Key, x string, alphabet []string
 		record(o)
 	}
 	take()
+	hasNil := false
 	for n, oi := range order {
 		o := blank()
 		o.Op, o.P = "SetElem", append(append([]Key{}, where...), keyOf(alphabet[oi]))
 		o.V = VDesc{Src: "atom", N: 100 + n}
 		record(o)
+		hasNil = hasNil || alphabet[oi] == "$nil"
 		if r.Intn(5) != 0 {
 			take()
+		}
+		if hasNil && r.Intn(3) == 0 { // re-assoc of the existing $nil key, aliases of earlier versions alive
+			o := blank()
+			o.Op, o.P, o.V = "SetElem", append(append([]Key{}, where...), nilKey), VDesc{Src: "atom", N: 700 + n}
+			record(o)
 		}
 		if n > 0 && r.Intn(6) == 0 { // replace or delete a key added earlier
 			o := blank()
@@ -636,7 +651,7 @@ func growHistory(c *lib.Ctx, r *rand.Rand, variant int) []Event {
 	default:
 		init, x, where = "var x = (num 5)\nvar y = [&k="+m0+" &m=[(num 1) "+m0+"]]\n", "y", []Key{keyOf("k")}
 	}
-	alphabet := alphabets[r.Intn(len(alphabets))]
+	alphabet := append([]string{"$nil"}, alphabets[r.Intn(len(alphabets))]...)
 	var keep []string
 	for _, a := range alphabet { // keys already in the literal are replaced, not added: leave a few in
 		if !strings.Contains(m0, "&"+a+"=") || r.Intn(3) == 0 {
@@ -682,6 +697,9 @@ func growShrinkHistory(c *lib.Ctx, r *rand.Rand, variant int) []Event {
 			keys = append(keys, keyOf(keyPool[i]))
 		}
 	}
+	if variant != 0 {
+		keys = append(keys, nilKey)
+	}
 	delOrder := make([]int, len(keys))
 	for i := range delOrder {
 		delOrder[i] = i
@@ -723,8 +741,18 @@ func growShrinkHistory(c *lib.Ctx, r *rand.Rand, variant int) []Event {
 		if left := len(keys) - n; left <= 12 || n%9 == 0 {
 			take()
 		}
+		if variant != 0 && n%4 == 1 { // re-assoc of $nil (present or not) between the deletions
+			o := blank()
+			o.Op, o.P, o.V = "SetElem", append(append([]Key{}, where...), nilKey), VDesc{Src: "atom", N: 800 + n}
+			record(o)
+		}
 		o := blank()
 		o.Op, o.P = "DelElem", append(append([]Key{}, where...), keys[di])
+		record(o)
+	}
+	if variant != 0 { // the re-assocs may have put $nil back after its deletion
+		o := blank()
+		o.Op, o.P = "DelElem", append(append([]Key{}, where...), nilKey)
 		record(o)
 	}
 	c.AddEvals(run.evals)
